@@ -346,6 +346,11 @@ func (fx *FnExec) finalizeAxioms() []string {
 		n := "G." + sanitize(pkg.Path()) + "." + s[i+1:]
 		if fx.declared[n] {
 			used = append(used, n)
+			if tn := fx.P.Specs.SentinelType[s]; tn != "" {
+				env := &evalEnv{fx: fx}
+				_, t := env.resolveType(tn)
+				out = append(out, fmt.Sprintf("(= (ityp %s) %d)", n, fx.typeID(t)))
+			}
 		}
 	}
 	for _, n := range used {
